@@ -8,7 +8,7 @@ from vp import core, gen, ref_sigproc
 
 PROP_ID = 'C03'
 LEVEL = 'exploration'
-BUDGET = {'quick': 2400, 'thorough': 30000}
+BUDGET = {'quick': 6000, 'thorough': 60000}
 RULE = ('Model-based histories over a pool of frames: Hypothesis draws 1..8 ops from new(geometry, content seed, source '
         'name, start time; synthetic through every construction route, or loaded from a file written by an independent '
         'SIGPROC writer), get_waterfall(i), copy(i), slice(i,l,r), dedrift(i,rate), pickle(i) and save_load(i, fil|h5|hdf5, '
@@ -20,10 +20,10 @@ RULE = ('Model-based histories over a pool of frames: Hypothesis draws 1..8 ops 
         'nchans/nints entries and match the frame; get_waterfall() carries the same header/data without a file. Content is '
         'value = c + 1000 t + noise so a flip or shift cannot cancel. Non-trivial: the saved frame has a history (>=1 earlier '
         'op on it or its parent), or is ascending, or fchans is not a power of two.')
-ASSUMPTIONS = ['only whole-frame saves and loads (no sub-band / time selections)', 'source names: 1..20 characters [A-Za-z0-9_]',
+ASSUMPTIONS = ['whole-frame saves; loads of whole files or of a blimpy time selection (no sub-band selections)', 'source names: 1..20 characters [A-Za-z0-9_]',
                'start times compared at 5 us (one ulp of an MJD double is 0.63 us)', 'frequencies pass MHz<->Hz: 64 ulp(fmax) tolerance']
 REQUIRED_CLASSES = ['fmt=fil', 'fmt=h5', 'asc', 'desc', 'saved:synthetic', 'saved:loaded', 'saved:slice', 'saved:dedrift',
-                    'saved:copy', 'saved:pickle', 'slice_after_parent_waterfall', 'by_waterfall_object', 'origin=reffile']
+                    'saved:copy', 'saved:pickle', 'slice_after_parent_waterfall', 'by_waterfall_object', 'origin=reffile', 'origin=reffile_tsel', 'frame_from_in_session_waterfall', 'second_synthetic_frame']
 
 NAMES = ['Voyager1', 'TMC1', 'SRC_42', 'a', 'HIP_1234567890123456']
 
@@ -42,8 +42,14 @@ def strategy_(draw, tier):
         st.fixed_dictionaries({'op': st.just('slice'), 'i': st.integers(0, 7), 'a': gen.finite(0, 1), 'b': gen.finite(0, 1)}),
         st.fixed_dictionaries({'op': st.just('dedrift'), 'i': st.integers(0, 7), 'frac': gen.finite(-0.5, 0.5)}),
         st.fixed_dictionaries({'op': st.just('pickle'), 'i': st.integers(0, 7)}),
-    ), min_size=1, max_size=8))
-    return dict(g=g, origin=draw(st.sampled_from(['synthetic', 'synthetic', 'reffile'])), seed=draw(st.integers(0, 10 ** 6)),
+        # a frame built from another frame's in-session Waterfall object
+        st.fixed_dictionaries({'op': st.just('from_waterfall'), 'i': st.integers(0, 7)}),
+        # a second, unrelated synthetic frame with its own name and content joins the session
+        st.fixed_dictionaries({'op': st.just('new'), 'name': st.sampled_from(NAMES), 'seed': st.integers(0, 10 ** 6),
+                               'asc': st.booleans(), 'dn': st.integers(-3, 5)}),
+    ), min_size=2, max_size=10))
+    return dict(g=g, origin=draw(st.sampled_from(['synthetic', 'synthetic', 'reffile', 'reffile_tsel'])), seed=draw(st.integers(0, 10 ** 6)),
+                tsel=draw(st.tuples(st.integers(0, 3), st.integers(1, 6))),
                 name=draw(st.sampled_from(NAMES)), ops=ops)
 
 
@@ -69,6 +75,21 @@ def first_frame(stg, case, ctx):
         else:
             ref_sigproc.write_fil(path, data[:, ::-1], g['fch1'] * 1e-6, -g['df'] * 1e-6, g['dt'], tstart_mjd=mjd, source_name=case['name'])
         return stg.Frame(waterfall=path)
+    if case['origin'] == 'reffile_tsel':
+        # loaded through a blimpy Waterfall opened on a time selection of a longer file
+        import blimpy
+        from astropy.time import Time
+        a, n = case.get('tsel', (1, 3))
+        T = g['tchans']
+        long = np.concatenate([content(dict(g, tchans=a), case['seed'] + 1) if a else np.zeros((0, g['fchans']), dtype=np.float32),
+                               data, content(dict(g, tchans=2), case['seed'] + 2)], axis=0)
+        path = ctx.path('origin_long.fil')
+        mjd = Time(g['t_start'], format='unix').mjd
+        if g['ascending']:
+            ref_sigproc.write_fil(path, long, g['fch1'] * 1e-6, g['df'] * 1e-6, g['dt'], tstart_mjd=mjd, source_name=case['name'])
+        else:
+            ref_sigproc.write_fil(path, long[:, ::-1], g['fch1'] * 1e-6, -g['df'] * 1e-6, g['dt'], tstart_mjd=mjd, source_name=case['name'])
+        return stg.Frame(waterfall=blimpy.Waterfall(path, t_start=a, t_stop=a + T))
     return gen.make_frame(stg, g, data=data.astype(np.float64), source_name=case['name'])
 
 
@@ -138,12 +159,13 @@ def run_case(case, ctx):
         return obs
     obs.cls('origin=' + case['origin'], 'asc' if g['ascending'] else 'desc')
     pool = [fr0]
-    kind = ['loaded' if case['origin'] == 'reffile' else 'synthetic']
-    hist = [1 if case['origin'] == 'reffile' else 0]        # number of earlier ops on the frame or its ancestors
-    has_wf = [case['origin'] == 'reffile']                  # a Waterfall object is attached
+    loaded0 = case['origin'] in ('reffile', 'reffile_tsel')
+    kind = ['loaded' if loaded0 else 'synthetic']
+    hist = [1 if loaded0 else 0]        # number of earlier ops on the frame or its ancestors
+    has_wf = [loaded0]                  # a Waterfall object is attached
     nsaves = 0
     for o in case['ops']:
-        i = o['i'] % len(pool)
+        i = o.get('i', 0) % len(pool)
         fr = pool[i]
         name = o['op']
         if name == 'get_waterfall':
@@ -178,6 +200,25 @@ def run_case(case, ctx):
             if not ok2:
                 break
             pool.append(c); kind.append('pickle'); hist.append(hist[i] + 1); has_wf.append(False)
+        elif name == 'from_waterfall':
+            obs.cls('frame_from_in_session_waterfall')
+            ok, wf = core.call(obs, 'get_waterfall', fr.get_waterfall)
+            if not ok:
+                break
+            has_wf[i] = True
+            ok, c = core.call(obs, 'Frame(waterfall=object)', stg.Frame, waterfall=wf)
+            if not ok:
+                break
+            compare_frames(obs, fr, c, f'{kind[i]}:in_session_waterfall')
+            pool.append(c); kind.append('loaded'); hist.append(hist[i] + 1); has_wf.append(True)
+        elif name == 'new':
+            g2 = dict(g, fchans=max(1, g['fchans'] + o['dn']), ascending=o['asc'], route='sizes')
+            d2 = content(g2, o['seed']) + 7.0
+            ok, c = core.call(obs, 'new_frame', gen.make_frame, stg, g2, d2.astype(np.float64), None, o['name'] + '_B')
+            if not ok:
+                break
+            obs.cls('second_synthetic_frame')
+            pool.append(c); kind.append('synthetic'); hist.append(0); has_wf.append(False)
         elif name == 'slice':
             N = fr.fchans
             l = int(o['a'] * N) % N
